@@ -259,6 +259,10 @@ class FlowDeps:
             env = self._stmt(st, env)
         return env
 
+    def _augassign(self, st, env):
+        r = self._roots(st.value, env) | self._roots(st.target, env)
+        self._assign(st.target, r, env)
+
     def _stmt(self, st, env):
         self.env_before[id(st)] = env
         env = dict(env)
@@ -271,8 +275,7 @@ class FlowDeps:
             if st.value is not None:
                 self._assign(st.target, self._roots(st.value, env), env, st.value)
         elif isinstance(st, ast.AugAssign):
-            r = self._roots(st.value, env) | self._roots(st.target, env)
-            self._assign(st.target, r, env)
+            self._augassign(st, env)
         elif isinstance(st, ast.Expr):
             self._effects(st.value, env)
         elif isinstance(st, ast.If):
